@@ -82,7 +82,7 @@ deriving DecidableEq, Repr, Inhabited
 
 /-- Which variant `/repo` contains now.  `asIs` = commit 4a75a47's `mod.rs`; switch to `fixed` when
     `notes/C18-fix-1.diff` is applied. -/
-def repoVariant : Variant := .asIs
+def repoVariant : Variant := .fixed
 
 /-- the body of the `for ty in nonterminal_types(..)` loop (`mod.rs:176-178`) -/
 def ownFilter (v : Variant) (tn : List String) (items : List Item) : List Item :=
